@@ -5,7 +5,7 @@ import "github.com/RoaringBitmap/roaring/v2"
 func init() {
 	register(&Property{
 		ID: "C14", Level: "exploration", Builds: []string{"plain"},
-		Rule:        "cases = population histories and single-bitmap histories biased to fragment runs (range-then-punch-holes, flips, algebra between run-heavy operands); after every step, for every live bitmap with N elements and maximum mx: GetSerializedSizeInBytes (and, every 8th step, len(ToBytes()) which must agree) is compared with 8+9*ceil(x/65536)+2N and with BoundSerializedSizeInBytes(N,x) for x in {mx+1, next chunk edge, 2^32}, before and after RunOptimize. Non-trivial: non-empty bitmaps; distinct = hash of the step list.",
+		Rule:        "cases = population histories and single-bitmap histories biased to fragment runs (range-then-punch-holes, flips, algebra between run-heavy operands); after every step, for every live bitmap with N elements and maximum mx: GetSerializedSizeInBytes (and, every 8th step, len(ToBytes()) which must agree) is compared with 8+9*ceil(x/65536)+2N and with BoundSerializedSizeInBytes(N,x) for x in {mx+1, next chunk edge, 2^32}, before and after RunOptimize. Non-trivial: non-empty bitmaps; distinct = hash of the step list. 70 % of the population cases live in chunks 0..3 (the bounds allow 9 bytes per possible chunk below the maximum); threshold-cardinality-targets with the chunk at key 0.",
 		Assumptions: []string{"both bounds hold for canonical representations (checked on paper), so the check cannot alarm on a correct tree"},
 		Units: []Unit{
 			{Name: "population", Quick: 1500, Thorough: 80000, Run: c14Pop},
